@@ -1732,8 +1732,98 @@ pub fn run_c11_with(case: &Case, streams_complete: bool) -> Outcome {
     Outcome::pass(boundary || overflow, cl)
 }
 
+// ------------------------------------------------------------------ C11 soak: very many datagrams over one connection
+
+/// transport of one real endpoint whose peer sends `n` Datagram frames, the next one only after the application has taken the previous
+/// one out (so the receiver's buffer never holds more than one), and records what the endpoint sends
+struct SoakWs {
+    n: u64,
+    produced: u64,
+    taken: std::sync::Arc<std::sync::atomic::AtomicU64>,
+    waker: std::sync::Arc<std::sync::Mutex<Option<std::task::Waker>>>,
+    host_len: usize,
+    sent_other: std::sync::Arc<std::sync::atomic::AtomicU64>,
+    closed: bool,
+}
+fn soak_fields(k: u64, host_len: usize) -> (u32, Vec<u8>, u16, Vec<u8>) {
+    let host: Vec<u8> = (0..host_len).map(|i| (vf_common::splitmix(k ^ ((i as u64) << 32)) >> 11) as u8).collect();
+    ((k as u32).wrapping_mul(2_654_435_761), host, (k % 65_536) as u16, (k as u32).to_be_bytes()[..(k % 5) as usize].to_vec())
+}
+impl penguin_mux::ws::WebSocket for SoakWs {
+    fn poll_ready_unpin(&mut self, _cx: &mut std::task::Context<'_>) -> std::task::Poll<Result<(), penguin_mux::Error>> {
+        std::task::Poll::Ready(Ok(()))
+    }
+    fn start_send_unpin(&mut self, item: penguin_mux::ws::Message) -> Result<(), penguin_mux::Error> {
+        if !matches!(item, penguin_mux::ws::Message::Close) {
+            self.sent_other.fetch_add(1, std::sync::atomic::Ordering::SeqCst);
+        }
+        Ok(())
+    }
+    fn poll_flush_unpin(&mut self, _cx: &mut std::task::Context<'_>) -> std::task::Poll<Result<(), penguin_mux::Error>> {
+        std::task::Poll::Ready(Ok(()))
+    }
+    fn poll_close_unpin(&mut self, _cx: &mut std::task::Context<'_>) -> std::task::Poll<Result<(), penguin_mux::Error>> {
+        self.closed = true;
+        std::task::Poll::Ready(Ok(()))
+    }
+    fn poll_next_unpin(&mut self, cx: &mut std::task::Context<'_>) -> std::task::Poll<Option<Result<penguin_mux::ws::Message, penguin_mux::Error>>> {
+        if self.closed {
+            return std::task::Poll::Ready(None);
+        }
+        if self.produced < self.n && self.produced == self.taken.load(std::sync::atomic::Ordering::SeqCst) {
+            let (id, host, port, data) = soak_fields(self.produced, self.host_len);
+            self.produced += 1;
+            let f = penguin_mux::frame::Frame::new_datagram(id, &host, port, &data);
+            return std::task::Poll::Ready(Some(Ok(penguin_mux::ws::Message::Binary(bytes::Bytes::from(Vec::from(&f))))));
+        }
+        *self.waker.lock().unwrap() = Some(cx.waker().clone());
+        std::task::Poll::Pending
+    }
+}
+/// (number of datagrams, host length): every single one must come out of `get_datagram` unchanged - the buffer is never full and the
+/// connection stays up, so nothing may be lost however long the connection has been in use
+fn run_soak(c: &(u64, usize)) -> Outcome {
+    use rand::SeedableRng;
+    use std::sync::atomic::Ordering as O;
+    let (n, host_len) = *c;
+    let rt = tokio::runtime::Builder::new_current_thread().enable_time().start_paused(true).build().expect("runtime");
+    let taken = std::sync::Arc::new(std::sync::atomic::AtomicU64::new(0));
+    let waker = std::sync::Arc::new(std::sync::Mutex::new(None::<std::task::Waker>));
+    let sent_other = std::sync::Arc::new(std::sync::atomic::AtomicU64::new(0));
+    let ws = SoakWs { n, produced: 0, taken: taken.clone(), waker: waker.clone(), host_len, sent_other: sent_other.clone(), closed: false };
+    let r: Result<(), (String, String)> = rt.block_on(async {
+        let (mux, taskdata) = penguin_mux::Multiplexor::new_detailed::<_, std::time::Instant>(ws, penguin_mux::config::Options::new().datagram_buffer_size(4), rand::rngs::SmallRng::seed_from_u64(3));
+        let task = tokio::spawn(taskdata.into_task());
+        for k in 0..n {
+            let d = match tokio::time::timeout(std::time::Duration::from_secs(3600), mux.get_datagram()).await {
+                Ok(Ok(d)) => d,
+                Ok(Err(e)) => return Err(("c11-soak-connection-ended".to_string(), format!("get_datagram failed with {e:?} after {k} of {n} datagrams (task finished: {})", task.is_finished()))),
+                Err(_) => return Err(("c11-lost-without-overflow:soak".to_string(), format!("datagram {k} of {n} (hosts of {host_len} bytes, sent one at a time: the receiver's buffer is empty) never came out of get_datagram: it was dropped although the buffer is not full and the connection is up"))),
+            };
+            let (id, host, port, data) = soak_fields(k, host_len);
+            if d.flow_id != id || d.target_host.as_ref() != host.as_slice() || d.target_port != port || d.data.as_ref() != data.as_slice() {
+                return Err(("c11-not-a-subsequence:soak".to_string(), format!("datagram {k} of {n} came out as (flow {:08x}, host {} bytes, port {}, payload {} bytes), sent as (flow {id:08x}, host {host_len} bytes, port {port}, payload {} bytes)", d.flow_id, d.target_host.len(), d.target_port, d.data.len(), data.len())));
+            }
+            taken.fetch_add(1, O::SeqCst);
+            if let Some(w) = waker.lock().unwrap().take() {
+                w.wake();
+            }
+        }
+        if task.is_finished() {
+            return Err(("c11-connection-ended".to_string(), format!("the connection task ended during a flow of {n} datagrams")));
+        }
+        drop(mux);
+        let _ = tokio::time::timeout(std::time::Duration::from_secs(60), task).await;
+        Ok(())
+    });
+    match r {
+        Err((sig, msg)) => Outcome::violation(sig, msg),
+        Ok(()) => Outcome::pass(true, vec!["soak-one-connection-many-datagrams"]),
+    }
+}
+
 pub fn c11(ctx: &Ctx, rep: &mut Report) {
-    rep.rule = "1-24 datagrams from either side over the full field domain (flow ids incl. 0 and the ids of the streams open on the same connection, host length 0..300 of arbitrary octets or an entry of a dictionary of 130 hosts that mean something to some layer - IP literals in every notation, bracketed IPv6 literals, names with ports, letter case, dots, control characters -, all ports, payload length {0..5,100,1500,65535}), datagram_buffer_size in {1,2,8,512}, receivers eager / idle during the burst / intermittent, 0-2 complete streams on the same connection; a family in which the open/close cycles of C06 (every close order incl. aborts by either side, ids that come back) are followed by datagrams in both directions on the ids those streams used; \
+    rep.rule = "1-24 datagrams from either side over the full field domain (flow ids incl. 0 and the ids of the streams open on the same connection, host length 0..300 of arbitrary octets or an entry of a dictionary of 130 hosts that mean something to some layer - IP literals in every notation, bracketed IPv6 literals, names with ports, letter case, dots, control characters -, all ports, payload length {0..5,100,1500,65535}), datagram_buffer_size in {1,2,8,512}, receivers eager / idle during the burst / intermittent, 0-2 complete streams on the same connection; a soak family (1 - 2 million datagrams in the quick tier, 10 - 30 million in the thorough tier, one at a time over one connection on a real tokio runtime, hosts of 255 / 11 / 0 bytes: not one may be lost); a family in which the open/close cycles of C06 (every close order incl. aborts by either side, ids that come back) are followed by datagrams in both directions on the ids those streams used; \
                 oracle: host > 255 refused with DatagramHostTooLong and nothing on the wire, received list is a subsequence of the sent list with all four fields equal, loss only on buffer overflow (idle receiver: exactly the first `capacity`), the connection never ends and streams complete with C02/C03/C05 oracles. \
                 Non-trivial = a host or payload at a boundary (host 0/1/255/>255, payload 0-3) or a burst larger than the buffer. Distinct = distinct case value."
         .into();
@@ -1759,6 +1849,12 @@ pub fn c11(ctx: &Ctx, rep: &mut Report) {
         }
         o
     });
+    // long use of one connection: hundreds of thousands (thorough: millions) of datagrams, one at a time, on a real tokio runtime
+    {
+        let sizes: Vec<(u64, usize)> = if matches!(ctx.tier, vf_common::Tier::Thorough) { vec![(10_000_000, 255), (20_000_000, 11), (30_000_000, 0), (300_000, 255)] } else { vec![(1_000_000, 255), (1_500_000, 11), (2_000_000, 0)] };
+        let n = sizes.len() as u64;
+        ctx.enumerate(rep, "soak", n, n, move |i| sizes[i as usize], run_soak);
+    }
     // every host of the dictionary of hosts that mean something to some layer, as the whole target host of a datagram from either side
     ctx.enumerate(rep, "meaningful-hosts", vf_common::host_dictionary().len() as u64, 64, |i| {
         let n = vf_common::host_dictionary().len() as u64;
